@@ -196,9 +196,27 @@ def main():
     con = REGISTRY[job["key"]]
     if job.get("lemma"):
         # generic replay of a lemma: its harness body is executed in the real module's namespace
+        def lemma_namespace(con):
+            lm = con.lemma_module
+            if lm.startswith("pyx:") or lm.startswith("pyxfn:"):
+                # the same mechanical extraction / translation the VCs were generated from, executed natively
+                import math
+                import numpy as np
+                from pyvc.source import SourceIndex
+                text = SourceIndex(os.environ.get("VERIF_REPO", "/repo")).module(lm).text
+
+                def wrap(bits):
+                    half, mod = 2 ** (bits - 1), 2 ** bits
+                    return lambda v: (int(math.trunc(v)) + half) % mod - half
+                ns = {"np": np, "trunc": lambda v: float(math.trunc(v)), "c_cast_double": float, "c_cast_float": float,
+                      "cround": lambda v: float(math.floor(abs(v) + 0.5)) * (1 if v >= 0 else -1),
+                      "c_cast_short": wrap(16), "c_cast_int": wrap(32), "c_cast_long": wrap(64)}
+                exec(text, ns)
+                return ns
+            return dict(vars(importlib.import_module(lm)))
+
         def build(inputs, con=con):
-            m = importlib.import_module(con.lemma_module)
-            ns = dict(vars(m))
+            ns = lemma_namespace(con)
             exec(con.lemma_src, ns)
             import ast as _ast
             fname = _ast.parse(con.lemma_src).body[0].name
